@@ -95,7 +95,9 @@ def run(ctx, mod, args):
 
     # 4. search when a proof or the correspondence broke and nothing concrete was found yet
     searched = False
-    if (ctx.proof_problems or ctx.disagreements) and not ctx.violations:
+    known_keys = {f["key"] for f in vlib.known_findings().get("findings", []) if f["property"] == ctx.prop}
+    if (ctx.proof_problems or ctx.disagreements) and not [v for v in ctx.violations if v["key"] not in known_keys]:
+        # (violations that are listed known findings do not explain a broken proof or tie: the search still runs)
         searched = True
         reason = "proof" if ctx.proof_problems else "correspondence"
         if hasattr(mod, "search"):
